@@ -159,7 +159,7 @@ func (g *wGen) step() {
 		}
 	}
 	if len(pend) > 0 {
-		add(8, func() { h.OpResolve(pick(rng, pend), 1+rng.Intn(2)) })
+		add(8, func() { h.OpResolve(pick(rng, pend), 1+rng.Intn(4)) })
 		add(2, func() { h.OpMeltAgain(pick(rng, pend)) })
 	}
 	if wl.W.PendingBalance() > 0 {
@@ -324,6 +324,13 @@ func wScenarios(prop, tier string, rng *rand.Rand) []wScenario {
 			h.OpMelt(0, 0, 50, 1, 0)
 			h.OpMelt(0, 0, 60, 2, 0)
 			h.OpResolve(len(h.melts)-1, 1)
+			// a melt left pending whose payment fails behind the wallet's back, retried on the same quote (then paid)
+			h.OpMelt(0, 0, 16, 2, 0)
+			h.OpResolve(len(h.melts)-1, 3)
+			h.OpMeltAgain(len(h.melts) - 1)
+			h.OpMelt(0, 0, 8, 2, 0)
+			h.OpResolve(len(h.melts)-1, 4)
+			h.OpMeltAgain(len(h.melts) - 1)
 			h.OpSend(0, 0, 20, false, true, 0)
 			h.OpReclaim(0, 0)
 			h.OpSend(1, 0, 100, false, true, 0)
